@@ -4,7 +4,7 @@
 import Flumine.SimLoop
 import Flumine.Lemmas.OrderLemmas
 import Flumine.Lemmas.Ids
-import Flumine.Props.C02
+import Flumine.Lemmas.Packs
 import Mathlib.Tactic.SplitIfs
 namespace Flumine.Inv
 open Flumine Flumine.World Flumine.OL Flumine.Ids
@@ -321,7 +321,7 @@ theorem good_createPackages (w : World) (t : Txn) (pend : List (Nat × Option In
   unfold createPackages
   apply good_packs
   intro vc hvc oid ho
-  exact hp (oid, vc.1) ((C02.packs_sound pend k vc hvc).2.2 oid ho)
+  exact hp (oid, vc.1) ((Packs.packs_sound pend k vc hvc).2.2 oid ho)
 
 theorem good_txnExecute_of (w : World) (t : Txn) (ht : TOk w t) : Good w (w.txnExecute t).1 := by
   unfold txnExecute
